@@ -14,7 +14,7 @@ from typing import Iterator, Optional, Sequence
 
 from labtech.exceptions import TaskDiedError
 from labtech.runners.base import run_or_load_task
-from labtech.tasks import get_direct_dependencies
+import labtech.tasks as _lt_tasks
 from labtech.types import LabContext, ResultMeta, Runner, RunnerBackend, Storage, Task, TaskMonitorInfo, TaskResult
 
 from .sim import SimAbort
@@ -54,7 +54,9 @@ class SimRunner(Runner):
     def _execute(self, s: _Sub):
         task = s.task
         try:
-            for dependency_task in get_direct_dependencies(task):
+            # the documented Runner contract (labtech.types.Runner.submit_task)
+            deps_of = getattr(_lt_tasks, 'get_direct_dependency_instances', _lt_tasks.get_direct_dependencies)
+            for dependency_task in deps_of(task):
                 dependency_task._set_results_map(self.results_map)
             res = run_or_load_task(
                 task=task,
